@@ -261,7 +261,7 @@ def selection_cases(ctx, n):
             base.append("IOU")
         dec = ["IOU", {"q": list(rng.choice([(1, 100), (1, 10), (1, 2)]))}] if rng.random() < 0.6 else None
         cfg = E.mk_cfg(it, base, matcher=None if it == "MATCHED" else E.naive("IOU", rng.choice([(1, 10), (1, 2)])), decision=dec)
-        variants = E.selection_variants(rng, base, allow_cldsc=three_d)
+        variants = E.selection_variants(rng, base, allow_cldsc=pred.ndim >= 2)
         inp = {"shape": list(pred.shape), "dtype": str(pred.dtype), "pred": gen.arr_json(pred), "ref": gen.arr_json(ref), "cfg": cfg,
                "variants": variants, "src": f"selection{i}"}
         inv, book, ran = E.selection_failures(cfg, pred, ref, variants)
